@@ -487,9 +487,42 @@ func c12Eval(w *World, cfg EvalConfig, fn *ssa.Function) []c12Outcome {
 		}
 		return inline == nil || inline(f)
 	}
+	// package-level tables of function values (assigned once by the package initialiser, only
+	// read afterwards) are known slices: a range over one is the sequence of its elements
+	tables := c12FuncTables(w)
+	field := cfg.Field
+	tableVal := map[string]AVal{}
+	cfg.Field = func(path string, t types.Type) (AVal, bool) {
+		if v, ok := tableVal[path]; ok {
+			return v, true
+		}
+		if field != nil {
+			return field(path, t)
+		}
+		return nil, false
+	}
+	if cfg.MaxVisits == 0 {
+		cfg.MaxVisits = 3
+	}
+	for _, tb := range tables {
+		if len(tb.Elems)+2 > cfg.MaxVisits {
+			cfg.MaxVisits = len(tb.Elems) + 2
+		}
+	}
 	for attempt := 0; ; attempt++ {
 		ev := &Evaluator{W: w, Cfg: cfg}
-		outs := ev.Eval(fn, ev.SymbolicArgs(fn))
+		args := ev.SymbolicArgs(fn)
+		if ev.st0 == nil {
+			ev.st0 = &pstate{heap: map[int]*aObj{}}
+		}
+		for _, tb := range tables {
+			o := ev.newObj(ev.st0, "")
+			for i, el := range tb.Elems {
+				o.Slots[fmt.Sprintf("[%d]", i)] = aFunc{Fn: el}
+			}
+			tableVal[tb.Path] = aSlice{ID: o.ID, Path: "", Len: len(tb.Elems)}
+		}
+		outs := ev.Eval(fn, args)
 		more := false
 		for _, o := range outs {
 			if o.Kind == "truncated" && strings.HasPrefix(o.Why, loopMsg) {
@@ -504,6 +537,191 @@ func c12Eval(w *World, cfg EvalConfig, fn *ssa.Function) []c12Outcome {
 			return outs
 		}
 	}
+}
+
+// c12Table is a package-level slice of function values whose elements are statically known.
+type c12Table struct {
+	Path  string // the global's name as the evaluator sees it
+	Elems []*ssa.Function
+}
+
+// c12FuncTables finds the package-level variables of the module that hold a slice literal of
+// functions / closures without captured variables, are assigned exactly once (by the package
+// initialiser) and are otherwise only read: loaded, measured with len/cap, indexed for reading.
+func c12FuncTables(w *World) []c12Table {
+	if t, ok := w.memo["c12functables"].([]c12Table); ok {
+		return t
+	}
+	type cand struct {
+		elems []*ssa.Function
+		bad   bool
+		sets  int
+	}
+	cands := map[*ssa.Global]*cand{}
+	get := func(g *ssa.Global) *cand {
+		if cands[g] == nil {
+			cands[g] = &cand{}
+		}
+		return cands[g]
+	}
+	funcOf := func(v ssa.Value) *ssa.Function {
+		for {
+			switch x := v.(type) {
+			case *ssa.ChangeType:
+				v = x.X
+				continue
+			case *ssa.Function:
+				if x.Blocks != nil && len(x.FreeVars) == 0 {
+					return x
+				}
+			case *ssa.MakeClosure:
+				if f, ok := x.Fn.(*ssa.Function); ok && len(x.Bindings) == 0 && f.Blocks != nil {
+					return f
+				}
+			}
+			return nil
+		}
+	}
+	// elements of a slice value built from a literal array in the same function
+	literal := func(v ssa.Value) []*ssa.Function {
+		sl, ok := v.(*ssa.Slice)
+		if !ok || sl.Low != nil || sl.High != nil {
+			return nil
+		}
+		al, ok := sl.X.(*ssa.Alloc)
+		if !ok || al.Referrers() == nil {
+			return nil
+		}
+		at, ok := al.Type().Underlying().(*types.Pointer).Elem().Underlying().(*types.Array)
+		if !ok {
+			return nil
+		}
+		if _, isFn := at.Elem().Underlying().(*types.Signature); !isFn {
+			return nil
+		}
+		elems := make([]*ssa.Function, at.Len())
+		for _, r := range *al.Referrers() {
+			switch u := r.(type) {
+			case *ssa.Slice, *ssa.DebugRef:
+			case *ssa.IndexAddr:
+				idx, isC := constInt(u.Index)
+				if !isC || idx < 0 || idx >= at.Len() || u.Referrers() == nil {
+					return nil
+				}
+				for _, r2 := range *u.Referrers() {
+					st, ok := r2.(*ssa.Store)
+					if !ok || st.Addr != ssa.Value(u) || elems[idx] != nil {
+						return nil
+					}
+					if elems[idx] = funcOf(st.Val); elems[idx] == nil {
+						return nil
+					}
+				}
+			default:
+				return nil
+			}
+		}
+		for _, e := range elems {
+			if e == nil {
+				return nil
+			}
+		}
+		return elems
+	}
+	readOnly := func(ld *ssa.UnOp) bool {
+		if ld.Referrers() == nil {
+			return true
+		}
+		for _, r := range *ld.Referrers() {
+			switch u := r.(type) {
+			case *ssa.DebugRef:
+			case *ssa.Call:
+				b, isB := u.Common().Value.(*ssa.Builtin)
+				if !isB || (b.Name() != "len" && b.Name() != "cap") {
+					return false
+				}
+			case *ssa.IndexAddr:
+				if u.X != ssa.Value(ld) || u.Referrers() == nil {
+					return false
+				}
+				for _, r2 := range *u.Referrers() {
+					switch l2 := r2.(type) {
+					case *ssa.DebugRef:
+					case *ssa.UnOp:
+						if l2.Op != token.MUL {
+							return false
+						}
+					default:
+						return false
+					}
+				}
+			default:
+				return false
+			}
+		}
+		return true
+	}
+	fns := append([]*ssa.Function(nil), w.ModFuncs...)
+	seen := map[*ssa.Function]bool{}
+	for _, f := range fns {
+		seen[f] = true
+	}
+	for _, sp := range w.SPkgs {
+		if sp != nil && strings.HasPrefix(sp.Pkg.Path(), modulePath) {
+			if in := sp.Func("init"); in != nil && in.Blocks != nil && !seen[in] {
+				fns = append(fns, in)
+			}
+		}
+	}
+	for _, fn := range fns {
+		for _, b := range fn.Blocks {
+			for _, in := range b.Instrs {
+				var ops [12]*ssa.Value
+				for _, op := range in.Operands(ops[:0]) {
+					if op == nil || *op == nil {
+						continue
+					}
+					g, ok := (*op).(*ssa.Global)
+					if !ok {
+						continue
+					}
+					if sl, isSl := g.Type().Underlying().(*types.Pointer).Elem().Underlying().(*types.Slice); !isSl {
+						continue
+					} else if _, isFn := sl.Elem().Underlying().(*types.Signature); !isFn {
+						continue
+					}
+					cd := get(g)
+					switch x := in.(type) {
+					case *ssa.Store:
+						if x.Addr != ssa.Value(g) {
+							cd.bad = true
+							continue
+						}
+						cd.sets++
+						if cd.elems = literal(x.Val); cd.elems == nil || fn.Name() != "init" || fn.Synthetic == "" {
+							cd.bad = true
+						}
+					case *ssa.UnOp:
+						if x.Op != token.MUL || !readOnly(x) {
+							cd.bad = true
+						}
+					case *ssa.DebugRef:
+					default:
+						cd.bad = true
+					}
+				}
+			}
+		}
+	}
+	var out []c12Table
+	for g, cd := range cands {
+		if !cd.bad && cd.sets == 1 && len(cd.elems) > 0 && len(cd.elems) <= 64 {
+			out = append(out, c12Table{Path: g.String(), Elems: cd.elems})
+		}
+	}
+	sort.Slice(out, func(i, j int) bool { return out[i].Path < out[j].Path })
+	w.memo["c12functables"] = out
+	return out
 }
 
 // c12IsKeyParser: a library function ([]byte) -> (crypto.PubKey, error), e.g.
